@@ -20,6 +20,11 @@
 //   - second cycle: after the release operation the same (or re-acquired) Request/Response/RequestCtx is reused
 //     with SetBodyString("second body") / ctx.Error: the peer must get that body, the old stream must neither
 //     be closed nor read again; streams whose Close returns an error are included throughout;
+//   - retry monitor: a raw recording peer drops a stale keep-alive connection after it received the request
+//     with the stream; whatever the client's retry policy allows, every request the peer ever receives
+//     for that URL must carry exactly the stream's bytes;
+//   - pipe-tail hammer: >= 10^5 very short StreamWriter outputs per quick run are read back byte for byte
+//     (NewStreamReader, Response.Write of a SetBodyStreamWriter body, streamed gzip);
 //   - fault enumeration: every configuration is executed without a fault and then
 //     again with the sink failing after n bytes (n = 0, inside the head, at the
 //     head/body boundary, inside the body, last byte; PRNG positions).
@@ -75,11 +80,12 @@ const (
 	wGzip
 	wDeflate
 	wServer
+	wRetry    // HostClient.Do / Client.Do over a stale keep-alive connection to a raw recording peer, retry policy allows another attempt
 	wClient   // HostClient.Do over an InmemoryListener to a real Server, two requests on one keep-alive connection
 	wCompress // CompressHandlerBrotliLevel around a handler on a RequestCtx: the response holds a compressed stream that was not written yet
 )
 
-var writeNames = []string{"nowrite", "Write", "WriteGzip", "WriteDeflate", "Server.ServeConn", "HostClient.Do", "CompressHandler"}
+var writeNames = []string{"nowrite", "Write", "WriteGzip", "WriteDeflate", "Server.ServeConn", "Do(stale conn, retriable)", "HostClient.Do", "CompressHandler"}
 
 const (
 	relNone = iota
@@ -95,35 +101,38 @@ const (
 var relNames = []string{"none", "Reset", "ResetBody", "Release(pool)", "CloseBodyStream", "SetBody", "SetBodyStream(other)"}
 
 type config struct {
-	IsReq    bool   `json:"is_request"`
-	Kind     int    `json:"kind"`
-	KindName string `json:"kind_name"`
-	DataLen  int    `json:"data_len"`
-	DataSeed int64  `json:"data_seed"`
-	Chunks   []int  `json:"chunks"`
-	SizeMode int    `json:"size_mode"` // 0 equal 1 shorter 2 longer 3 unknown (-1)
-	Delta    int    `json:"delta"`
-	LimN     int    `json:"limited_n"`
-	PanicAt  int    `json:"panic_at"`
-	ErrAt    int    `json:"err_at"`
-	EOFData  bool   `json:"eof_with_data"`
-	ZeroAt   int    `json:"zero_read_at"`
-	BufSize  int    `json:"bufio_size"`
-	Write    int    `json:"write"`
-	Release  int    `json:"release"`
-	Again    bool   `json:"second_reset"`
-	Skip     int    `json:"skip_body"` // 0 no 1 status 204 2 status 304 3 SkipBody
-	SkipLate bool   `json:"skip_set_after_stream"`
-	ImmFlush bool   `json:"immediate_header_flush"`
-	SWFlush  int    `json:"sw_flush_every"`
-	Method   string `json:"method"`
-	Enc      string `json:"accept_encoding"`        // CompressHandler / Server: gzip, deflate, br, zstd ("" for Server: no compression)
-	CHWrite  bool   `json:"write_after_compress"`   // CompressHandler: call Response.Write afterwards
-	CloseErr bool   `json:"close_returns_error"`    // the stream's Close reports an error
-	SrvError bool   `json:"ctx_error_after_stream"` // Server: the handler calls ctx.Error("second body") after SetBodyStream
-	BufioSz  int    `json:"bufio_reader_size"`
-	BufioPk  int    `json:"bufio_reader_prefill"`
-	BufioWT  bool   `json:"bufio_reader_inner_writerto"`
+	IsReq     bool   `json:"is_request"`
+	Kind      int    `json:"kind"`
+	KindName  string `json:"kind_name"`
+	DataLen   int    `json:"data_len"`
+	DataSeed  int64  `json:"data_seed"`
+	Chunks    []int  `json:"chunks"`
+	SizeMode  int    `json:"size_mode"` // 0 equal 1 shorter 2 longer 3 unknown (-1)
+	Delta     int    `json:"delta"`
+	LimN      int    `json:"limited_n"`
+	PanicAt   int    `json:"panic_at"`
+	ErrAt     int    `json:"err_at"`
+	EOFData   bool   `json:"eof_with_data"`
+	ZeroAt    int    `json:"zero_read_at"`
+	BufSize   int    `json:"bufio_size"`
+	Write     int    `json:"write"`
+	Release   int    `json:"release"`
+	Again     bool   `json:"second_reset"`
+	Skip      int    `json:"skip_body"` // 0 no 1 status 204 2 status 304 3 SkipBody
+	SkipLate  bool   `json:"skip_set_after_stream"`
+	ImmFlush  bool   `json:"immediate_header_flush"`
+	SWFlush   int    `json:"sw_flush_every"`
+	Method    string `json:"method"`
+	Enc       string `json:"accept_encoding"`        // CompressHandler / Server: gzip, deflate, br, zstd ("" for Server: no compression)
+	CHWrite   bool   `json:"write_after_compress"`   // CompressHandler: call Response.Write afterwards
+	CloseErr  bool   `json:"close_returns_error"`    // the stream's Close reports an error
+	SrvError  bool   `json:"ctx_error_after_stream"` // Server: the handler calls ctx.Error("second body") after SetBodyStream
+	BufioSz   int    `json:"bufio_reader_size"`
+	BufioPk   int    `json:"bufio_reader_prefill"`
+	BufioWT   bool   `json:"bufio_reader_inner_writerto"`
+	Retry     int    `json:"retry_policy"`     // 0 PUT + default policy, 1 POST + RetryIf=true, 2 POST + RetryIfErr=true
+	DropEarly bool   `json:"peer_drops_early"` // the peer drops the stale connection as soon as it has the head (else after the whole request)
+	UseClient bool   `json:"via_Client"`       // fasthttp.Client.Do instead of HostClient.Do
 
 	data []byte // genData(DataSeed, DataLen), shared read-only by all executions of the configuration
 }
@@ -234,6 +243,16 @@ func genConfig(rnd *rand.Rand) config {
 	case k >= 18 && c.IsReq:
 		c.Write = wClient
 		c.PanicAt = -1 // a panic escaping from HostClient.Do leaves the client's bookkeeping undefined (out of scope)
+	case k >= 16 && c.IsReq:
+		c.Write = wRetry
+		c.PanicAt, c.ErrAt, c.CloseErr = -1, -1, false
+		if c.SizeMode == 1 || c.SizeMode == 2 {
+			c.SizeMode = []int{0, 3}[rnd.Intn(2)] // every request the peer sees must carry exactly the stream's bytes
+		}
+		if c.Kind == kLimited {
+			c.LimN = c.DataLen
+		}
+		c.Retry, c.DropEarly, c.UseClient = rnd.Intn(3), rnd.Intn(3) == 0, rnd.Intn(3) == 0
 	case k < 12 || c.IsReq:
 		c.Write = wWrite
 	case k < 13:
@@ -265,7 +284,7 @@ func genConfig(rnd *rand.Rand) config {
 	if c.Write == wServer {
 		c.Release = relNone // the server owns the response and releases it itself
 	}
-	if c.Write == wClient && c.Release == relNone {
+	if (c.Write == wClient || c.Write == wRetry) && c.Release == relNone {
 		c.Release = relReset
 	}
 	if c.Write == wCompress {
@@ -322,6 +341,19 @@ type result struct {
 	err1      error
 
 	clientSettled bool
+	peerReqs      []peerReq
+}
+
+// peerReq is one request as a raw recording peer received it.
+type peerReq struct {
+	Conn     int    `json:"conn"`
+	Start    string `json:"start_line"`
+	Body     []byte `json:"-"`
+	BodyLen  int    `json:"body_len"`
+	Chunked  bool   `json:"chunked"`
+	CL       int    `json:"content_length"`
+	Complete bool   `json:"complete"`
+	Dropped  bool   `json:"dropped_without_answer"`
 }
 
 const secondBody = "second body"
@@ -460,6 +492,10 @@ func execute(c *config, faultAt int) (res *result) {
 
 	if c.Write == wClient {
 		executeClient(c, res, guard)
+		return res
+	}
+	if c.Write == wRetry {
+		executeRetry(c, res, guard)
 		return res
 	}
 
@@ -735,6 +771,176 @@ func cycle2Response(res *result, resp *fasthttp.Response, guard func(string, *an
 		}
 		res.wire2, res.did2 = snk2.buf, true
 	})
+}
+
+// executeRetry: a raw recording peer behind an InmemoryListener answers a warm-up GET, so that the client pools
+// the connection; the next request on that (now "stale") connection is read and the connection dropped without
+// an answer. The client sees a retriable error after the stream has been consumed; the retry policy would allow
+// another attempt. Whatever the client does then, every request the peer receives for the stream's URL must carry
+// exactly the stream's bytes, and the stream must be closed exactly once.
+func executeRetry(c *config, res *result, guard func(string, *any, func())) {
+	var stream io.Reader
+	var co *core
+	var size int
+	var sw fasthttp.StreamWriter
+	if c.Kind == kStreamWriter {
+		sw = c.streamWriter(res)
+	} else {
+		stream, co, size = c.build(res)
+	}
+	res.hasCore, res.co = co != nil, co
+	ln := fasthttputil.NewInmemoryListener()
+	var mu sync.Mutex
+	var wg sync.WaitGroup
+	record := func(q peerReq) {
+		q.BodyLen = len(q.Body)
+		mu.Lock()
+		res.peerReqs = append(res.peerReqs, q)
+		mu.Unlock()
+	}
+	handle := func(ci int, conn net.Conn) {
+		defer wg.Done()
+		defer conn.Close()
+		var buf []byte
+		tmp := make([]byte, 4096)
+		for reqIdx := 0; ; reqIdx++ {
+			stale := ci == 0 && reqIdx >= 1
+			for {
+				m := decodeMessage(buf)
+				if m.headDone && (m.complete || (stale && c.DropEarly) || m.bad != "") {
+					q := peerReq{Conn: ci, Start: m.startLine, Body: append([]byte(nil), m.body...), Chunked: m.chunked, CL: m.cl, Complete: m.complete && m.bad == ""}
+					if stale || m.bad != "" {
+						q.Dropped = true
+						record(q)
+						return // drop the connection without an answer
+					}
+					record(q)
+					buf = append([]byte(nil), m.rest...)
+					break
+				}
+				n, err := conn.Read(tmp)
+				buf = append(buf, tmp[:n]...)
+				if err != nil {
+					if len(buf) > 0 {
+						m := decodeMessage(buf)
+						record(peerReq{Conn: ci, Start: m.startLine, Body: append([]byte(nil), m.body...), Chunked: m.chunked, CL: m.cl})
+					}
+					return
+				}
+			}
+			if _, err := conn.Write([]byte("HTTP/1.1 200 OK\r\nContent-Type: text/plain\r\nContent-Length: 2\r\n\r\nok")); err != nil {
+				return
+			}
+		}
+	}
+	accepted := make(chan struct{})
+	go func() {
+		defer close(accepted)
+		for ci := 0; ; ci++ {
+			conn, err := ln.Accept()
+			if err != nil {
+				return
+			}
+			wg.Add(1)
+			go handle(ci, conn)
+		}
+	}()
+	dial := func(string) (net.Conn, error) { return ln.Dial() }
+	var retryIf fasthttp.RetryIfFunc
+	var retryIfErr fasthttp.RetryIfErrFunc
+	method := "PUT" // idempotent under the default policy
+	switch c.Retry {
+	case 1:
+		method, retryIf = "POST", func(*fasthttp.Request) bool { return true }
+	case 2:
+		method, retryIfErr = "POST", func(*fasthttp.Request, int, error) (bool, bool) { return false, true }
+	}
+	var do func(*fasthttp.Request, *fasthttp.Response) error
+	var closeIdle func()
+	if c.UseClient {
+		cl := &fasthttp.Client{Dial: dial, RetryIf: retryIf, RetryIfErr: retryIfErr, ReadTimeout: 20 * time.Second, WriteTimeout: 20 * time.Second, MaxIdleConnDuration: time.Hour}
+		do, closeIdle = cl.Do, cl.CloseIdleConnections
+	} else {
+		hc := &fasthttp.HostClient{Addr: "h.example", Dial: dial, RetryIf: retryIf, RetryIfErr: retryIfErr, ReadTimeout: 20 * time.Second, WriteTimeout: 20 * time.Second, MaxIdleConnDuration: time.Hour}
+		do, closeIdle = hc.Do, hc.CloseIdleConnections
+	}
+	var req *fasthttp.Request
+	if c.Release == relPool {
+		req = fasthttp.AcquireRequest()
+	} else {
+		req = &fasthttp.Request{}
+	}
+	var resp fasthttp.Response
+	// warm-up: puts connection 0 into the client's pool
+	req.Header.SetMethod("GET")
+	req.SetRequestURI("http://h.example/c34/warmup")
+	var warmErr error
+	guard("warm-up Do", &res.escaped, func() { warmErr = do(req, &resp) })
+	req.Reset()
+	resp.Reset()
+	req.Header.SetMethod(method)
+	req.SetRequestURI("http://h.example/c34/s")
+	if sw != nil {
+		req.SetBodyStreamWriter(sw)
+	} else {
+		req.SetBodyStream(stream, size)
+	}
+	res.wrote = true
+	if warmErr != nil {
+		res.writeErr = fmt.Errorf("warm-up request failed: %w", warmErr)
+		res.stage = "warm-up"
+	} else {
+		guard("Do", &res.escaped, func() { res.writeErr = do(req, &resp) })
+	}
+	res.err1 = res.writeErr
+	res.s1 = snapOf(co)
+	other := plainS{&core{data: []byte("other"), chunks: []int{5}, panicAt: -1, errAt: -1, zeroAt: -1}}
+	guard("release", &res.relPanic, func() {
+		switch c.Release {
+		case relReset:
+			req.Reset()
+		case relResetBody:
+			req.ResetBody()
+		case relPool:
+			fasthttp.ReleaseRequest(req)
+		case relCloseBodyStream:
+			req.CloseBodyStream()
+		case relSetBody:
+			req.SetBody([]byte("replaced"))
+		case relSetBodyStream:
+			req.SetBodyStream(other, -1)
+		}
+	})
+	res.s2 = snapOf(co)
+	if c.Again {
+		guard("second Reset", &res.relPanic, func() { req.Reset() })
+	}
+	res.s3 = snapOf(co)
+	if c.Release == relPool {
+		req = fasthttp.AcquireRequest()
+	}
+	guard("second cycle", &res.relPanic, func() {
+		req.Header.SetMethod("POST")
+		req.SetRequestURI("http://h.example/c34/2")
+		req.SetBodyString(secondBody)
+		resp.Reset()
+		res.err2 = do(req, &resp)
+		res.did2 = true
+	})
+	res.s5 = snapOf(co)
+	if c.Release == relPool {
+		fasthttp.ReleaseRequest(req)
+	}
+	closeIdle()
+	ln.Close()
+	<-accepted
+	settled := make(chan struct{})
+	go func() { wg.Wait(); close(settled) }()
+	select {
+	case <-settled:
+		res.clientSettled = true
+	case <-time.After(30 * time.Second):
+	}
 }
 
 // executeClient sends the stream as the body of request 1 through a real HostClient to a real Server over an
@@ -1099,7 +1305,7 @@ func (j *judge) judge(c *config, faultAt int, res *result, fclass string) {
 	}
 
 	// ---- second cycle: the peer must get the second cycle's body
-	if res.did2 && c.Write != wClient && c.Skip == 0 && res.relPanic == nil {
+	if res.did2 && c.Write != wClient && c.Write != wRetry && c.Skip == 0 && res.relPanic == nil {
 		m2 := decodeMessage(res.wire2)
 		if res.err2 != nil || m2.bad != "" || !m2.complete || string(m2.body) != secondBody || len(m2.rest) != 0 {
 			viol("second-cycle-wrong-body-"+closeKind, fmt.Sprintf("after %s the object was reused with SetBodyString(%q) but the peer got err=%v complete=%v chunked=%v body=%s", relNames[c.Release], secondBody, res.err2, m2.complete, m2.chunked, mon.Short(m2.body, 40)))
@@ -1114,6 +1320,10 @@ func (j *judge) judge(c *config, faultAt int, res *result, fclass string) {
 	}
 	if c.Write == wClient {
 		j.judgeClient(c, res, viol, werr)
+		return
+	}
+	if c.Write == wRetry {
+		j.judgeRetry(c, res, viol)
 		return
 	}
 	// fixed-size framing: whatever the stream does, the body on the wire never exceeds the declared
@@ -1251,6 +1461,64 @@ func (j *judge) judge(c *config, faultAt int, res *result, fclass string) {
 	}
 }
 
+// judgeRetry: every request the raw peer received for the stream's URL carries exactly the stream's bytes.
+func (j *judge) judgeRetry(c *config, res *result, viol func(key, what string)) {
+	r := j.r
+	if !res.clientSettled {
+		r.Inconclusive(fmt.Sprintf("case %d: raw peer connections still open 30 s after the client was closed", j.idx))
+		return
+	}
+	if res.stage == "warm-up" {
+		viol("retry-warmup-failed", fmt.Sprint(res.writeErr))
+		return
+	}
+	policy := []string{"PUT-default-policy", "POST-RetryIf", "POST-RetryIfErr"}[c.Retry]
+	mu := map[string]any{"peer_requests": res.peerReqs}
+	_ = mu
+	attempts := 0
+	for _, q := range res.peerReqs {
+		if !strings.Contains(q.Start, " /c34/s ") {
+			continue
+		}
+		attempts++
+		switch {
+		case q.Complete && len(q.Body) == 0 && len(res.expected) > 0:
+			viol("retry-sent-bodyless-request-"+policy, fmt.Sprintf("attempt %d on connection %d: the peer received %q with an empty body (chunked=%v, Content-Length %d), the stream produced %d bytes; all requests seen: %+v", attempts, q.Conn, q.Start, q.Chunked, q.CL, len(res.expected), res.peerReqs))
+		case q.Complete && firstDiff(q.Body, res.expected) >= 0:
+			viol("retry-sent-other-body-"+policy, fmt.Sprintf("attempt %d on connection %d: the peer received %d body bytes, the stream produced %d, first difference at %d; all requests seen: %+v", attempts, q.Conn, len(q.Body), len(res.expected), firstDiff(q.Body, res.expected), res.peerReqs))
+		case !q.Complete && !bytes.HasPrefix(res.expected, q.Body):
+			viol("retry-sent-other-body-"+policy, fmt.Sprintf("attempt %d on connection %d: the truncated body the peer received is not a prefix of the stream output; all requests seen: %+v", attempts, q.Conn, res.peerReqs))
+		default:
+			r.Event("retry_peer_requests_compared", 1)
+		}
+	}
+	if attempts == 0 {
+		viol("retry-request-never-sent", fmt.Sprintf("the peer never received the request with the stream (Do returned %v); all requests seen: %+v", res.writeErr, res.peerReqs))
+	}
+	if attempts > 1 {
+		r.Event("retry_attempts_beyond_first_seen", attempts-1)
+	}
+	if res.writeErr != nil {
+		r.Event("retry_do_returned_error", 1)
+	} else {
+		r.Event("retry_do_returned_nil", 1)
+	}
+	r.Event("retry_cases_judged", 1)
+	if res.did2 && res.relPanic == nil {
+		saw2 := false
+		for _, q := range res.peerReqs {
+			if strings.Contains(q.Start, " /c34/2 ") && q.Complete && string(q.Body) == secondBody {
+				saw2 = true
+			}
+		}
+		if res.err2 != nil || !saw2 {
+			viol("client-second-request-failed", fmt.Sprintf("the second request (SetBodyString %q on the reused Request) returned %v, peer saw it: %v", secondBody, res.err2, saw2))
+		} else {
+			r.Event("second_cycle_bodies_compared", 1)
+		}
+	}
+}
+
 // judgeClient: what the real client put on its connections and what the real server understood.
 func (j *judge) judgeClient(c *config, res *result, viol func(key, what string), werr error) {
 	r := j.r
@@ -1344,21 +1612,164 @@ func classOf(c *config, res *result, fclass string) string {
 		c.IsReq, kindNames[c.Kind], c.SizeMode, writeNames[c.Write], c.Enc, c.CHWrite, relNames[c.Release], c.Skip, fclass, c.PanicAt >= 0, c.ErrAt >= 0, wire, lb, res.s3.usedWriteTo, c.CloseErr, c.SrvError)
 }
 
+const hammerBlockN = 1000
+
+// runHammerBlock pushes hammerBlockN very short StreamWriter outputs (1-3 small writes, PRNG flushes, then return)
+// through fasthttp's pipe: directly (NewStreamReader drained with a small buffer), as a SetBodyStreamWriter body
+// written by Response.Write into a parsing peer, and now and then through streamed gzip. The StreamWriter's
+// last flush is immediately followed by Close inside fasthttp; a tail lost there shows up as a well-formed but
+// truncated body with nil errors, so only a byte-for-byte comparison over very many streams can see it.
+func runHammerBlock(r *mon.Run, idx, bi int) {
+	rnd := r.Rand("hammer", bi)
+	data := genData(int64(bi)+1, 200)
+	rbuf := make([]byte, 64)
+	var peer bytes.Buffer
+	bw := bufio.NewWriterSize(&peer, 512)
+	var resp fasthttp.Response
+	counts := [3]int{}
+	for k := 0; k < hammerBlockN; k++ {
+		nw := 1 + rnd.Intn(3)
+		sizes := [3]int{1 + rnd.Intn(64), 1 + rnd.Intn(64), 1 + rnd.Intn(64)}
+		flushMask, yieldW, yieldR, rsz := rnd.Intn(8), rnd.Intn(8), rnd.Intn(8), 1+rnd.Intn(len(rbuf))
+		total := 0
+		for j := 0; j < nw; j++ {
+			total += sizes[j]
+		}
+		var produced atomic.Int64
+		var swErr atomic.Value
+		sw := func(w *bufio.Writer) {
+			pos := 0
+			for j := 0; j < nw; j++ {
+				if yieldW == j {
+					runtime.Gosched()
+				}
+				if _, err := w.Write(data[pos : pos+sizes[j]]); err != nil {
+					swErr.Store(err)
+					return
+				}
+				pos += sizes[j]
+				if flushMask&(1<<j) != 0 {
+					if err := w.Flush(); err != nil {
+						swErr.Store(err)
+						return
+					}
+				}
+			}
+			produced.Store(int64(pos))
+		}
+		payload := func(form string, got int) map[string]any {
+			return map[string]any{"kind": "hammer", "block": bi, "stream": k, "form": form, "writes": nw, "sizes": sizes[:nw], "flush_mask": flushMask, "read_size": rsz, "produced": total, "received": got}
+		}
+		form := 0
+		switch f := rnd.Intn(64); {
+		case f == 0:
+			form = 2
+		case f < 20:
+			form = 1
+		}
+		counts[form]++
+		switch form {
+		case 0: // NewStreamReader + small reads
+			rd := fasthttp.NewStreamReader(sw)
+			got, bad := 0, false
+			var rerr error
+			for n := 0; ; n++ {
+				if yieldR == n {
+					runtime.Gosched()
+				}
+				m, err := rd.Read(rbuf[:rsz])
+				if got+m <= len(data) && !bytes.Equal(rbuf[:m], data[got:got+m]) {
+					bad = true
+				}
+				got += m
+				if err != nil {
+					if err != io.EOF {
+						rerr = err
+					}
+					break
+				}
+			}
+			rd.Close()
+			switch {
+			case rerr != nil:
+				r.Violation(idx, "stream-reader-read-error", fmt.Sprintf("NewStreamReader: Read: %v", rerr), payload("NewStreamReader", got))
+			case swErr.Load() != nil:
+				r.Violation(idx, "stream-writer-write-error", fmt.Sprintf("StreamWriter got %v while its reader was still reading", swErr.Load()), payload("NewStreamReader", got))
+			case bad || got > total:
+				r.Violation(idx, "stream-reader-bytes-differ", fmt.Sprintf("NewStreamReader delivered %d bytes that differ from the %d written", got, total), payload("NewStreamReader", got))
+			case got < total || produced.Load() != int64(total):
+				r.Violation(idx, "stream-writer-tail-lost", fmt.Sprintf("NewStreamReader: io.EOF after %d of the %d bytes the StreamWriter wrote before returning (%d writes, flush mask %b)", got, total, nw, flushMask), payload("NewStreamReader", got))
+			}
+		case 1: // Response.SetBodyStreamWriter + Write into a parsing peer
+			resp.SetBodyStreamWriter(sw)
+			peer.Reset()
+			bw.Reset(&peer)
+			err := resp.Write(bw)
+			if err == nil {
+				err = bw.Flush()
+			}
+			m := decodeMessage(peer.Bytes())
+			switch {
+			case err != nil || swErr.Load() != nil:
+				r.Violation(idx, "stream-writer-write-error", fmt.Sprintf("Response.Write of a SetBodyStreamWriter body: %v / StreamWriter: %v", err, swErr.Load()), payload("Response.Write", len(m.body)))
+			case m.bad != "" || !m.complete || len(m.rest) != 0:
+				r.Violation(idx, "wire-malformed", fmt.Sprintf("Response.Write of a SetBodyStreamWriter body: bad=%q complete=%v rest=%d", m.bad, m.complete, len(m.rest)), payload("Response.Write", len(m.body)))
+			case !bytes.Equal(m.body, data[:total]):
+				key := "stream-writer-body-differs-on-wire"
+				if len(m.body) < total && bytes.HasPrefix(data[:total], m.body) {
+					key = "stream-writer-tail-lost"
+				}
+				r.Violation(idx, key, fmt.Sprintf("Response.Write of a SetBodyStreamWriter body: the peer decoded a well-formed chunked body of %d bytes, the StreamWriter wrote %d before returning", len(m.body), total), payload("Response.Write", len(m.body)))
+			}
+			resp.ResetBody()
+		case 2: // streamed gzip: the compressed bytes travel over the same pipe
+			resp.Reset()
+			resp.SetBodyStream(bytes.NewReader(data[:total]), -1)
+			peer.Reset()
+			bw.Reset(&peer)
+			err := resp.WriteGzip(bw)
+			if err == nil {
+				err = bw.Flush()
+			}
+			m := decodeMessage(peer.Bytes())
+			var plain []byte
+			if err == nil && m.bad == "" && m.complete {
+				plain, err = decompress("gzip", m.body)
+			}
+			switch {
+			case m.bad != "" || !m.complete:
+				r.Violation(idx, "wire-malformed", fmt.Sprintf("WriteGzip of a short stream: bad=%q complete=%v", m.bad, m.complete), payload("WriteGzip", len(m.body)))
+			case err != nil:
+				r.Violation(idx, "compressed-stream-tail-lost", fmt.Sprintf("WriteGzip of a %d-byte stream: well-formed chunked body of %d bytes that does not gunzip: %v", total, len(m.body), err), payload("WriteGzip", len(m.body)))
+			case !bytes.Equal(plain, data[:total]):
+				r.Violation(idx, "compressed-stream-bytes-differ", fmt.Sprintf("WriteGzip of a %d-byte stream gunzips to %d other bytes", total, len(plain)), payload("WriteGzip", len(plain)))
+			}
+			resp.Reset()
+		}
+	}
+	r.Event("hammer_streams_compared", hammerBlockN)
+	r.Event("hammer_NewStreamReader", counts[0])
+	r.Event("hammer_Response.Write", counts[1])
+	r.Event("hammer_WriteGzip", counts[2])
+	r.Cases(hammerBlockN, fmt.Sprintf("hammer/%d", bi%8), true)
+}
+
 func TestC34(t *testing.T) {
 	r := mon.Start(t, "C34")
 	defer r.Finish()
-	r.Rule("configuration = {request, response} x stream kind {plain Reader, ReadCloser, LimitedReader, bytes.Reader, bytes.Buffer, WriterTo, BodyWriterTo on/off, ReadCloser with CloseWithError, pre-filled bufio.Reader (inner Reader or WriterTo), strings.Reader, SetBodyStreamWriter} x Close returns nil / an error x content length 0-24000 x read/WriteTo chunk plan x declared size {equal, shorter, longer, -1} x {Read panics at byte k, Read fails at byte k, (n,EOF), (0,nil)} x bufio size 16-65536 x {no write, Write, WriteGzip, WriteDeflate, CompressHandlerBrotliLevel(gzip|deflate|br|zstd) on a RequestCtx with or without a following Write, Server.ServeConn (two pipelined requests, optionally ctx.Error after SetBodyStream, with or without CompressHandler), HostClient.Do to a real Server over an InmemoryListener (two requests on one client)} x release {none, Reset, ResetBody, ReleaseRequest/ReleaseResponse, CloseBodyStream, SetBody, SetBodyStream(other)} x second Reset x second cycle (SetBodyString on the same object, written to a healthy peer) x {204, 304, SkipBody} x ImmediateHeaderFlush; " +
-		"every configuration is executed with a healthy peer and then with the peer failing after n bytes (n = 0, last byte, head/body boundary, PRNG positions); one evaluation = one execution; distinct = feature vector incl. fault class and resulting framing; non-trivial = the stream has bytes and is either an instrumented Closer or had its bytes compared")
+	r.Rule("configuration = {request, response} x stream kind {plain Reader, ReadCloser, LimitedReader, bytes.Reader, bytes.Buffer, WriterTo, BodyWriterTo on/off, ReadCloser with CloseWithError, pre-filled bufio.Reader (inner Reader or WriterTo), strings.Reader, SetBodyStreamWriter} x Close returns nil / an error x content length 0-24000 x read/WriteTo chunk plan x declared size {equal, shorter, longer, -1} x {Read panics at byte k, Read fails at byte k, (n,EOF), (0,nil)} x bufio size 16-65536 x {no write, Write, WriteGzip, WriteDeflate, CompressHandlerBrotliLevel(gzip|deflate|br|zstd) on a RequestCtx with or without a following Write, Server.ServeConn (two pipelined requests, optionally ctx.Error after SetBodyStream, with or without CompressHandler), HostClient.Do to a real Server over an InmemoryListener (two requests on one client), HostClient.Do / Client.Do whose pooled connection is dropped by a raw recording peer after (or while) it received the request, with PUT under the default policy, POST + RetryIf, POST + RetryIfErr} x release {none, Reset, ResetBody, ReleaseRequest/ReleaseResponse, CloseBodyStream, SetBody, SetBodyStream(other)} x second Reset x second cycle (SetBodyString on the same object, written to a healthy peer) x {204, 304, SkipBody} x ImmediateHeaderFlush; " +
+		"every configuration is executed with a healthy peer and then with the peer failing after n bytes (n = 0, last byte, head/body boundary, PRNG positions); one evaluation = one execution; second phase: blocks of 1000 very short StreamWriter outputs (1-3 writes of 1-64 bytes, PRNG flushes and yields, then return) read back through NewStreamReader with a 1-64 byte buffer, through Response.Write of a SetBodyStreamWriter body into a parsing peer, and (1 in 64) through WriteGzip, 16 blocks running concurrently; distinct = feature vector incl. fault class and resulting framing; non-trivial = the stream has bytes and is either an instrumented Closer or had its bytes compared")
 	r.Assume("exact-bytes (peer body == stream output) is judged only when the declared size agrees with what the stream produces (or is -1) and neither the stream nor the peer failed; for every declared size the weaker rule is judged: bytes after the head <= Content-Length, a prefix of the stream output, next message right after")
 	r.Assume("a Close error of the stream is reported by fasthttp as the result of an otherwise complete write; the harness flushes and does not treat it as a write failure. Server.ServeConn treats it as a failed write and closes the connection without flushing what is still buffered: whether the peer must get the whole response then is not judged (skipped_bytes_server_aborts_after_close_error / observed_server_response_truncated_after_close_error)")
-	r.Assume("HostClient cases use non-idempotent methods (no retries), no panicking streams (a panic escaping Do leaves the client's bookkeeping undefined) and no injected peer faults")
+	r.Assume("retry cases: the peer answers a warm-up GET so that the client pools the connection, reads the next request (entirely, or only its head) and drops the connection; the oracle does not prescribe whether Do retries, only that no request with another body than the stream's reaches the peer and that the stream is closed exactly once; sizes are consistent in this mode")
+	r.Assume("HostClient cases against the real Server use non-idempotent methods (no retries), no panicking streams (a panic escaping Do leaves the client's bookkeeping undefined) and no injected peer faults")
 	r.Assume("a panic from a REQUEST stream's Read propagates to the caller by design: the harness recovers, performs the release operation, then counts Close calls; after a recovered RESPONSE stream panic the count is likewise taken after the release operation")
 	r.Assume("SetBody and SetBodyStream(other) are treated as resets of the body")
 	r.Assume("with WriteGzip/WriteDeflate fasthttp reads the original stream in a compressor goroutine and closes it from the writer side when the write is abandoned (upstream tests require this), so a Read arriving after Close is counted, not judged, on that path; the Close COUNT is judged there too, after the compressor goroutine (identified by an inherited pprof label and the NewStreamReader frame) has exited (30 s cap, inconclusive if it fires); panicking streams are not combined with compression or SetBodyStreamWriter (the panic would be raised in a goroutine fasthttp does not guard); br and zstd bodies are checked for framing and Close counts only (no stdlib decoder)")
 	r.Assume("SetBodyStreamWriter pipes are not instrumentable for Close counts; instead the StreamWriter function must have returned after the write/release (generous 30 s watchdog, inconclusive if it fires)")
 	r.Assume("the independent decoder and net/http are correct readers of RFC 9112 framing")
 
-	nCfg := r.N(5_000, 100_000)
+	nCfg := r.N(5_000, 80_000)
 	var swHung atomic.Int64
 	mon.Parallel(nCfg, 0, func(i int) {
 		if !r.Want(i) || swHung.Load() > 3 {
@@ -1405,7 +1816,7 @@ func TestC34(t *testing.T) {
 		if c.Write == wCompress && !c.CHWrite && r.Thorough() {
 			run(-1, 0, 0) // a discard without any write has no fault positions: repeat it for schedule diversity
 		}
-		if c.Write == wNone || c.Write == wClient || len(clean.wire) == 0 {
+		if c.Write == wNone || c.Write == wClient || c.Write == wRetry || len(clean.wire) == 0 {
 			return
 		}
 		wl := len(clean.wire)
@@ -1425,7 +1836,21 @@ func TestC34(t *testing.T) {
 			run(f, hl, wl)
 		}
 	})
+	// second phase: very many very short StreamWriter outputs over fasthttp's pipe (case indices nCfg...)
+	nBlocks := r.N(150, 2_000)
+	mon.Parallel(nBlocks, 0, func(bi int) {
+		if !r.Want(nCfg + bi) {
+			return
+		}
+		defer func() {
+			if p := recover(); p != nil {
+				r.Violation(nCfg+bi, "panic", fmt.Sprintf("hammer block %d panicked: %v", bi, p), map[string]any{"block": bi})
+			}
+		}()
+		runHammerBlock(r, nCfg+bi, bi)
+	})
 	if !r.Replaying() {
+		r.Require("hammer_streams_compared", nBlocks*hammerBlockN)
 		r.Require("executions", nCfg*2)
 		r.Require("close_counts_judged", nCfg)
 		r.Require("bodies_compared_own_decoder", nCfg/8)
@@ -1439,5 +1864,7 @@ func TestC34(t *testing.T) {
 		r.Require("second_cycle_bodies_compared", nCfg/2)
 		r.Require("fixed_size_wires_judged_stream_longer_than_declared", nCfg/20)
 		r.Require("client_connections_judged", nCfg/100)
+		r.Require("retry_cases_judged", nCfg/50)
+		r.Require("retry_peer_requests_compared", nCfg/50)
 	}
 }
